@@ -10,8 +10,10 @@ def _eq(a, b):
     if a.shape != b.shape:
         return False
     if a.dtype.kind in "OUS" or b.dtype.kind in "OUS":
-        # not numbers (a frame with a wrong dtype was evaluated without complaint): element-wise identity
-        return a.tolist() == b.tolist() or bool(np.array_equal(a, b))
+        # not numbers (a frame with a wrong dtype was evaluated without complaint): element-wise, NaN == NaN
+        from .obs import objects_equal
+
+        return objects_equal(a.astype(object), b.astype(object))
     if a.dtype.kind in "fc" or b.dtype.kind in "fc":
         return bool(np.array_equal(a.astype(float), b.astype(float), equal_nan=True))
     return bool(np.array_equal(a, b))
